@@ -74,6 +74,22 @@ class Listed:
         return {"listed": self.size}
 
 
+class Concat:
+    def __init__(self, *es):
+        self.es = es
+        self.size = sum(e.size for e in es)
+
+    def get(self, idx):
+        for e in self.es:
+            if idx < e.size:
+                return e.get(idx)
+            idx -= e.size
+        raise IndexError
+
+    def desc(self):
+        return {"concat": [e.desc() for e in self.es]}
+
+
 # ================================================================================================ space definitions
 def B(n):
     return {"b": n}
@@ -115,17 +131,17 @@ def lex_space(tier):
         add(n, Words(NAME_ALPHA, 3 if q else (5 if n in ("NMTOKEN", "Name", "NCName", "NMTOKENS") else 4)))
     add("QName", Words(["a", "1", ":", "-", "p", "q", " "], 4 if q else 6))
     add("NOTATION", Words(["a", "1", ":", "-", "p", " "], 3 if q else 5))
-    add("anyURI", Words(["a", ":", "/", "#", "%", "?", "2", " "], 4 if q else 6))
+    add("anyURI", Words(["a", ":", "/", "#", "%", "?", "2", " "], 4 if q else 5))
     add("boolean", Words(["true", "false", "1", "0", "T", "t", " ", "\t"], 3 if q else 5))
     add("decimal", Words(["+", "-", "0", "1", "9", ".", " "], 5 if q else 7))
     for n in O.INTEGER_TYPES:
         add(n, Words(["+", "-", "0", "1", "9", " "], (5 if n == "integer" else 3) if q else (7 if n == "integer" else 5)),
             Product([["", "+", "-"], ["", "0", "00"], [str(m) for m in INT_MAGS], ["", ".", ".0"]]))
     for n in ("float", "double"):
-        add(n, Words(["+", "-", "0", "1", ".", "E", "e", "INF", "NaN", " "], 4 if q else 6),
+        add(n, Words(["+", "-", "0", "1", ".", "E", "e", "INF", "NaN", " "], 4 if q else 5),
             Product([["", "+", "-"], ["1", "9.99", "1.7976931348623157", "3.4028235", "4.9", "1.4", "0", ".5", "5."], ["E", "e"], ["", "+", "-"],
                      ["0", "1", "38", "39", "45", "46", "308", "309", "324", "325", "400", "0038"]]))
-    add("duration", Words(["-", "P", "T", "1", "0", "Y", "M", "D", "H", "S", "."], 4 if q else 6),
+    add("duration", Words(["-", "P", "T", "1", "0", "Y", "M", "D", "H", "S", "."], 4 if q else 5),
         Product([["", "-"], ["P"], ["", "1Y", "0Y", "Y"], ["", "2M", "13M"], ["", "3D", "400D"], ["", "T"], ["", "4H", "25H"], ["", "5M", "61M"],
                  ["", "6S", "6.5S", "6.S", ".5S", "60S", "6.50S"]]))
     if q:
@@ -134,17 +150,17 @@ def lex_space(tier):
     else:
         add("dateTime", Product([DT_YEAR, ["-"], DT_MONTH, ["-"], DT_DAY, ["T"], DT_HOUR, [":"], DT_MIN, [":"], DT_SEC, DT_ZONE]))
     tdefs_dt = len(tdefs) - 1
-    enums.append((tdefs_dt, Words(["2000", "-", "02", "29", "T", ":", "00", "Z", "+14:00", ".5"], 5 if q else 6)))
+    enums.append((tdefs_dt, Words(["2000", "-", "02", "29", "T", ":", "00", "Z", "+14:00", ".5"], 4 if q else 5)))
     add("time", Product([["00", "12", "23", "24", "25", "1"], [":"], DT_MIN + ["0"], [":"], DT_SEC, DT_ZONE]),
-        Words(["12", ":", "00", "Z", "+01:00", ".5", "-"], 5 if q else 7))
-    add("date", Product([DT_YEAR, ["-"], DT_MONTH, ["-"], DT_DAY, DT_ZONE]), Words(["2000", "-", "02", "29", "Z", "+14:00", "T"], 5 if q else 7))
-    add("gYearMonth", Product([DT_YEAR, ["-"], DT_MONTH, DT_ZONE]), Words(["2000", "-", "02", "Z", "+14:00", "1"], 5 if q else 7))
-    add("gYear", Product([DT_YEAR, DT_ZONE]), Words(["2000", "-", "0", "Z", "+14:00", "1"], 5 if q else 7))
-    add("gMonthDay", Product([["--", "-", ""], DT_MONTH, ["-", ""], DT_DAY, DT_ZONE]), Words(["-", "02", "29", "30", "Z", "+14:00"], 5 if q else 7))
-    add("gDay", Product([["---", "--", ""], DT_DAY + ["1"], DT_ZONE]), Words(["-", "31", "32", "1", "Z", "+14:00"], 5 if q else 7))
-    add("gMonth", Product([["--", "-", ""], DT_MONTH, ["", "--", "-"], DT_ZONE]), Words(["-", "12", "13", "1", "Z", "+14:00"], 5 if q else 7))
-    add("hexBinary", Words(["0", "a", "F", "g", " "], 5 if q else 8))
-    add("base64Binary", Words(["A", "Q", "B", "=", " ", "/"], 5 if q else 8))
+        Words(["12", ":", "00", "Z", "+01:00", ".5", "-"], 5 if q else 6))
+    add("date", Product([DT_YEAR, ["-"], DT_MONTH, ["-"], DT_DAY, DT_ZONE]), Words(["2000", "-", "02", "29", "Z", "+14:00", "T"], 5 if q else 6))
+    add("gYearMonth", Product([DT_YEAR, ["-"], DT_MONTH, DT_ZONE]), Words(["2000", "-", "02", "Z", "+14:00", "1"], 4 if q else 6))
+    add("gYear", Product([DT_YEAR, DT_ZONE]), Words(["2000", "-", "0", "Z", "+14:00", "1"], 4 if q else 6))
+    add("gMonthDay", Product([["--", "-", ""], DT_MONTH, ["-", ""], DT_DAY, DT_ZONE]), Words(["-", "02", "29", "30", "Z", "+14:00"], 4 if q else 6))
+    add("gDay", Product([["---", "--", ""], DT_DAY + ["1"], DT_ZONE]), Words(["-", "31", "32", "1", "Z", "+14:00"], 4 if q else 6))
+    add("gMonth", Product([["--", "-", ""], DT_MONTH, ["", "--", "-"], DT_ZONE]), Words(["-", "12", "13", "1", "Z", "+14:00"], 4 if q else 6))
+    add("hexBinary", Words(["0", "a", "F", "g", " "], 5 if q else 7))
+    add("base64Binary", Words(["A", "Q", "B", "=", " ", "/"], 5 if q else 7))
     return tdefs, enums
 
 
@@ -219,15 +235,18 @@ def facet_space(tier):
     add(R(B("base64Binary"), ("minLength", "2"), ("maxLength", "3")), b64w)
     add(R(B("base64Binary"), ("enumeration", "AA=="), ("enumeration", "AAAAQQ==")), b64w)
     # ---- decimal / integer
-    dw = Words(["-", "0", "1", "5", "9", "."], 4 if q else 5)
+    dextra = Listed(["1.50", "0.50", "-0.5", "-1.5", "10.0", "15.0", "9.99", "0.05", "-5.0", "100", "-10", "1.55", "99.9", "0.10", "-0.0", "+1.5", "+10", "01.5", "1.500", "-19", "19.0",
+                     "255", "256", "-128", "-129", "127", "128", " 5 ", "1 5", ""])
+    dw = Concat(Words(["-", "0", "1", "5", "9", "."], 3 if q else 4), dextra)
+    dw5 = dw if q else Concat(Words(["-", "0", "1", "5", "9", "."], 5), dextra)
     for base in ("decimal", "integer"):
         for t in (1, 2, 3):
-            add(R(B(base), ("totalDigits", str(t))), dw)
+            add(R(B(base), ("totalDigits", str(t))), dw5)
         for f in ((0, 1, 2) if base == "decimal" else (0,)):
-            add(R(B(base), ("fractionDigits", str(f))), dw)
+            add(R(B(base), ("fractionDigits", str(f))), dw5)
         for t, f in ((1, 0), (1, 1), (2, 1), (3, 2), (2, 2)):
             if base == "decimal" or f == 0:
-                add(R(B(base), ("totalDigits", str(t)), ("fractionDigits", str(f))), dw)
+                add(R(B(base), ("totalDigits", str(t)), ("fractionDigits", str(f))), dw5)
         bounds = ["-1", "0", "1.5", "10", "-0.5"] if base == "decimal" else ["-1", "0", "1", "10", "-5"]
         for b in bounds:
             for k in ("minInclusive", "minExclusive", "maxInclusive", "maxExclusive"):
@@ -536,8 +555,7 @@ class Acc:
     def violation(self, kind, **fields):
         self.count("violations")
         self.count("violations:" + kind)
-        tn = str(fields.get("type"))
-        tn = tn.split("{")[0] if len(tn) > 40 else tn
+        tn = O.tdef_label(fields["tdef"]) if fields.get("tdef") else str(fields.get("type"))
         self.count("vt:%s|%s" % (kind, tn))
         per = self.cnt.get("_listed:" + kind + "|" + tn, 0)
         if per < 3 and len(self.viol) < 1500:
@@ -692,6 +710,10 @@ def canon_checks(T, lex, val, c, acc, ctx, who):
     if isinstance(p, O.Float):
         if float_band(T, lex):
             return
+        d = p.exact(lex)
+        if d is not None and (isinstance(val, tuple) or (val == 0 and d != 0)):
+            acc.count("canon_of_converted_float_not_judged")   # documented out-of-bound conversion (docs/schema.xml): form of the canonical literal not judged
+            return
         if val == O.NAN:
             exp = "NaN"
         elif val == O.PINF:
@@ -761,7 +783,9 @@ def process_segment(space, exe, env, schema, types, tdefs, Ts, cases, pairs, wor
                 flush()
         flush()
     crashes = []
+    t_d = time.time()
     diags, res = run_driver(exe, env, schema, types, lines, workdir, tag, crashes)
+    acc.count("ms_in_driver", int((time.time() - t_d) * 1000))
     if res is None:
         raise RuntimeError("schema failed to load in worker: %s" % diags[:5])
     acc.count("driver_lines", len(lines))
@@ -772,7 +796,11 @@ def process_segment(space, exe, env, schema, types, tdefs, Ts, cases, pairs, wor
         f = r.split("\t")
         if f[0] == "X":
             acc.count("crashes")
-            acc.violation("crash", case=(cases[m[1]][0] if m[0] == "V" else None), line=ln[:300], log=json.loads(f[1])[:1200], space=space)
+            if m[0] == "V":
+                gidx, tid, raw = cases[m[1]]
+                acc.violation("crash", case=gidx, tdef=tdefs[tid], type=O.tdef_str(tdefs[tid]), raw=raw, lex=judged[m[1]][2], line=ln[:300], log=json.loads(f[1])[:1200], space=space)
+            else:
+                acc.violation("crash", line=ln[:300], log=json.loads(f[1])[:1200], space=space)
             continue
         if m[0] == "V":
             ci = m[1]
@@ -784,6 +812,8 @@ def process_segment(space, exe, env, schema, types, tdefs, Ts, cases, pairs, wor
             dv_ok = f[1] == "1"
             if not nodv:
                 dvres[ci] = dv_ok
+            if space == "order" and "r" in tdefs[tid] and len(tdefs[tid]["f"]) == 1 and "b" in tdefs[tid]["r"]:
+                pstate[2].append([tdefs[tid]["r"]["b"], tdefs[tid]["f"][0][0], tdefs[tid]["f"][0][1], raw, dv_ok])
             acc.count("evaluations")
             acc.count("no_validator_xsvalue_only" if nodv else "dv_valid" if dv_ok else "dv_invalid")
             if not dv_ok and not nodv:
@@ -951,7 +981,9 @@ def process_segment(space, exe, env, schema, types, tdefs, Ts, cases, pairs, wor
         for ln, m in zip(phase2, phase2_meta):
             uniq.setdefault(ln, []).append(m)
         l2 = list(uniq)
+        t_d = time.time()
         d2, r2 = run_driver(exe, env, schema, types, l2, workdir, tag + "p2", crashes)
+        acc.count("ms_in_driver", int((time.time() - t_d) * 1000))
         acc.count("driver_lines", len(l2))
         for ln, r in zip(l2, r2):
             f = r.split("\t")
@@ -965,6 +997,9 @@ def process_segment(space, exe, env, schema, types, tdefs, Ts, cases, pairs, wor
                     continue
                 acc.count("canon_roundtrips")
                 st2, val2, _ = T.check(c, pre_normalised=True)
+                if O.has_pattern(tdefs[tid]) and (f[1] != "1" or st2 == "I"):
+                    acc.count("canon_excluded_by_pattern_not_judged")   # a pattern facet may exclude the primitive type's canonical literal: the Recommendation's problem
+                    continue
                 if f[1] != "1":
                     acc.violation(who + "-canon-not-valid", observed=f[1], **ctx)
                     continue
@@ -988,7 +1023,7 @@ def process_segment(space, exe, env, schema, types, tdefs, Ts, cases, pairs, wor
 
 # ================================================================================================ worker / space runner
 CHUNK = 40000
-KNOWN_DEFECT_CANARIES = [("date-canonical-negative-year", "date", "-0001-01-01")]
+KNOWN_DEFECT_CANARIES = [("date-canonical-negative-year", "date", "-0001-01-01"), ("list-canonical-empty", "NMTOKENS-as-list", "")]
 
 
 def build_space(name, tier):
@@ -1040,7 +1075,7 @@ def worker(w, W, space, tier, exe, env, workdir, pk, out_path):
         for i, t in enumerate(tdefs):
             f.write("%d\t%s\n" % (i, t["b"] if "b" in t else "-"))
     units, total = units_of(enums, pairs)
-    pstate = [0, {}]
+    pstate = [0, {}, []]
     mine = [u for i, u in enumerate(units) if i % W == w]
     seg = 0
     cases, prs = [], []
@@ -1063,8 +1098,9 @@ def worker(w, W, space, tier, exe, env, workdir, pk, out_path):
             flush()
     flush()
     acc.cnt["_wall"] = int(time.time() - t0)
+    acc.count("ms_in_worker", int((time.time() - t0) * 1000))
     with open(out_path, "w") as f:
-        json.dump({"cnt": acc.cnt, "viol": acc.viol, "samples": acc.samples, "cmp": [[k[0], k[1], k[2], v] for k, v in pstate[1].items()]}, f)
+        json.dump({"cnt": acc.cnt, "viol": acc.viol, "samples": acc.samples, "cmp": [[k[0], k[1], k[2], v] for k, v in pstate[1].items()], "bounds": pstate[2]}, f)
 
 
 def order_axioms(tdefs, Ts, cmpres, acc):
@@ -1109,6 +1145,47 @@ def order_axioms(tdefs, Ts, cmpres, acc):
                             acc.violation("compare-order-not-transitive", type=name, tdef=tdefs[tid], a=a, b=b, c=c, ac=m.get((a, c)))
 
 
+def facet_order_axioms(boundres, acc):
+    """The order as validation sees it, independent of the reference model: for every ordered type rel(w, v) is reconstructed from the four
+    verdicts 'w is valid for {min,max}{In,Ex}clusive = v' and must be a consistent (partial) order: exactly one of LT/EQ/GT/IN is
+    expressed, w<v iff v>w, equality symmetric, reflexive, and < transitive (also through equal values) over all triples."""
+    by = {}
+    for name, k, v, w, ok in boundres:
+        by.setdefault(name, {}).setdefault((w, v), {})[k] = ok
+    for name, m in by.items():
+        rel = {}
+        vals = sorted(set(w for w, _ in m))
+        for (w, v), d in m.items():
+            if len(d) < 4:
+                continue
+            sig = (d["minExclusive"], d["minInclusive"], d["maxInclusive"], d["maxExclusive"])    # w>v, w>=v, w<=v, w<v
+            r = {(True, True, False, False): GT, (False, True, True, False): EQ, (False, False, True, True): LT, (False, False, False, False): IN}.get(sig)
+            acc.count("facet_order_pairs")
+            if r is None:
+                acc.violation("order-facets-inconsistent", type=name, tdef={"b": name}, w=w, v=v, gt_ge_le_lt=list(sig))
+            rel[(w, v)] = r
+        for a in vals:
+            if rel.get((a, a)) not in (EQ, None) :
+                acc.violation("order-not-reflexive", type=name, tdef={"b": name}, a=a, observed=rel.get((a, a)))
+            for b in vals:
+                x, y = rel.get((a, b)), rel.get((b, a))
+                if x is None or y is None:
+                    continue
+                if {LT: GT, GT: LT, EQ: EQ, IN: IN}[x] != y:
+                    acc.violation("order-not-antisymmetric", type=name, tdef={"b": name}, a=a, b=b, ab=x, ba=y)
+        le = {}
+        for (a, b), r in rel.items():
+            if r in (LT, EQ):
+                le.setdefault(a, []).append((b, r))
+        for a in le:
+            for b, r1 in le[a]:
+                for c, r2 in le.get(b, ()):
+                    acc.count("facet_order_triples")
+                    want = EQ if (r1 == EQ and r2 == EQ) else LT
+                    if rel.get((a, c)) not in (want, None):
+                        acc.violation("order-not-transitive", type=name, tdef={"b": name}, a=a, b=b, c=c, ab=r1, bc=r2, ac=rel.get((a, c)))
+
+
 def run_space(run, tier, out_path, env):
     t0 = time.time()
     space = run["space"]
@@ -1140,13 +1217,13 @@ def run_space(run, tier, out_path, env):
         raise RuntimeError("schema of space %s does not load: %s" % (space, diags[:3]))
     # ---- one unguarded canary per KNOWN_DEFECTS entry of the driver (the guarded cases are only counted)
     for kd, tname, lexv in KNOWN_DEFECT_CANARIES:
-        tids = [i for i, t in enumerate(tdefs) if t.get("b") == tname]
-        if tids and space == "lex":
+        tids = [i for i, t in enumerate(tdefs) if t.get("b") == tname or (tname == "NMTOKENS-as-list" and t == {"l": {"b": "int"}})]
+        if tids and ((space == "lex" and "b" in tdefs[tids[0]]) or (space == "facets" and "l" in tdefs[tids[0]])):
             cr = []
             _, r1 = run_driver(exe, env, sp, tp, ["V\t%d\t%s" % (tids[0], esc(lexv))], workdir, "canary", cr, extra=["--no-guards"])
             acc.count("known_defect_canaries")
             if cr:
-                acc.violation("crash", known_defect=kd, type=tname, tdef=tdefs[tids[0]], raw=lexv, lex=lexv, log=cr[0][1][:1500], space=space)
+                acc.violation("crash", known_defect=kd, type=O.tdef_str(tdefs[tids[0]]), tdef=tdefs[tids[0]], raw=lexv, lex=lexv, log=cr[0][1][:1500], space=space)
     W = max(1, min(W, len(units)))
     procs = []
     for w in range(W):
@@ -1171,6 +1248,7 @@ def run_space(run, tier, out_path, env):
     if failed:
         raise RuntimeError("c09 worker failed (harness error), see stderr")
     cmpres = []
+    boundres = []
     for w in range(W):
         p = os.path.join(workdir, "res%d.json" % w)
         r = json.load(open(p))
@@ -1182,15 +1260,18 @@ def run_space(run, tier, out_path, env):
         acc.viol.extend(r["viol"])
         acc.samples.extend(r["samples"])
         cmpres.extend(r["cmp"])
+        boundres.extend(r.get("bounds", []))
     if cmpres:
         order_axioms(tdefs, Ts, cmpres, acc)
+    if boundres:
+        facet_order_axioms(boundres, acc)
     acc.viol.sort(key=lambda v: (v["kind"], json.dumps(v.get("case")), json.dumps(v, sort_keys=True)))
     # keep the list small but representative: at most 4 per kind
     listed = []
     per = {}
     for v in acc.viol:
-        tn = str(v.get("type"))
-        key = (v["kind"], tn.split("{")[0] if len(tn) > 40 else tn)
+        tn = O.tdef_label(v["tdef"]) if v.get("tdef") else str(v.get("type"))
+        key = (v["kind"], tn)
         if per.get(key, 0) < 2:
             per[key] = per.get(key, 0) + 1
             listed.append(v)
